@@ -89,6 +89,16 @@ def _basis_checks(basis_list, coords, a, b, key, fails, gauss):
                 if not (abs(d_impl - d_num) <= 1e-5 * max(1.0 / (hi - lo), abs(d_num))):
                     fails.append(fail("first_derivative", "basis %d at x=%r: get_first_derivative %r, central difference %r" % (bi, x, d_impl, d_num), key))
                     return
+                # second derivative vs central difference of the first derivative (same points, same local step)
+                try:
+                    dd_impl = bas.get_second_derivative(x)
+                except (NotImplementedError, AttributeError):
+                    dd_impl = None
+                if dd_impl is not None:
+                    dd_num = (bas.get_first_derivative(xp) - bas.get_first_derivative(xm)) / (xp - xm)
+                    if not (abs(dd_impl - dd_num) <= 1e-5 * max(1.0 / (hi - lo) ** 2, abs(dd_num))):
+                        fails.append(fail("second_derivative", "basis %d at x=%r: get_second_derivative %r, central difference of the first derivative %r" % (bi, x, dd_impl, dd_num), key))
+                        return
         # integral vs composite Gauss-20 on every piece
         ref = 0.0
         for lo, hi in zip(brk[:-1], brk[1:]):
@@ -134,6 +144,13 @@ def _global_case(c):
     if d == 1:
         gauss = (g.coords_gauss, g.weights_gauss)
         _basis_checks(list(g.basis[0]), coords[0], a[0], b[0], key, fails, gauss)
+        if kind[0] == "bspline" and not bd and 4 <= len(coords[0]) <= (9 if kind[1] <= 3 else 7):   # (its evaluation cost doubles with every level)
+            # the modified hierarchical B-spline basis (boundary points off): only the statement about derivatives and integrals of the
+            # basis functions is demanded of it (its interpolation properties are C09's business)
+            from sparseSpACE import Grid as G
+            gm = G.GlobalBSplineGrid(np.array(a, dtype=float), np.array(b, dtype=float), boundary=False, modified_basis=True, p=kind[1])
+            gm.set_grid(coords, lvs)
+            _basis_checks(list(gm.basis[0]), coords[0], a[0], b[0], dict(key, modified_basis=True), fails, (gm.coords_gauss, gm.weights_gauss))
         # polynomial reproduction off the grid (boundary points on)
         if bd:
             m = trees.is_complete_level(coords[0], a[0], b[0])
